@@ -37,9 +37,9 @@ theorem Bay.SyncUpTo.weaken {strong : Bool} {b : Bay} {mi : Nat} {m : Mux} {P : 
 
 /-- Everything the sync relation of mux `mi` looks at is the same in `b` and `b'`. -/
 structure Bay.SameView (b b' : Bay) (mi : Nat) (m : Mux) : Prop where
-  sel : b'.chan m.sel = b.chan m.sel
-  out : b'.chan m.out = b.chan m.out
-  inp : ∀ (i c : Nat), m.inputs[i]? = some (some c) → b'.chan c = b.chan c
+  sel : (b'.chan m.sel).cur = (b.chan m.sel).cur
+  out : (b'.chan m.out).cur = (b.chan m.out).cur
+  inp : ∀ (i c : Nat), m.inputs[i]? = some (some c) → (b'.chan c).cur = (b.chan c).cur
   en : ∀ (i c : Nat), Cb.muxInput mi i ∈ b'.cbsOf c ↔ Cb.muxInput mi i ∈ b.cbsOf c
   selOf : b'.selOf mi = b.selOf mi
 
@@ -80,8 +80,8 @@ theorem Bay.runCb_other {b b' : Bay} {cb : Cb} {mi : Nat} {m : Mux} (wf : b.WF)
     (hfr : b.Frame mi m) (hne : cb.mux ≠ mi) (h : b.runCb cb = .ok b') : b.SameView b' mi m := by
   obtain ⟨m', hm', _, hch, _, hsel, hmem, _, _⟩ := Bay.runCb_frame wf h
   obtain ⟨f1, f2, f3⟩ := hfr cb.mux m' hm'
-  refine ⟨hch _ (Ne.symm f1), hch _ (Ne.symm (f3 hne)), ?_, ?_, hsel mi (Ne.symm hne)⟩
-  · intro i c hi; apply hch; rintro rfl; exact f2 i hi
+  refine ⟨by rw [hch _ (Ne.symm f1)], by rw [hch _ (Ne.symm (f3 hne))], ?_, ?_, hsel mi (Ne.symm hne)⟩
+  · intro i c hi; rw [hch]; rintro rfl; exact f2 i hi
   · intro i c; apply hmem; intro i' e; cases e; exact hne rfl
 
 /-- `cb_select` of mux `mi` brings it in sync whatever the order of events before. -/
@@ -390,5 +390,128 @@ theorem Bay.flush_result {b1 b2 : Bay} (wf1 : b1.WF) (h : Bay.flushList b1.dirty
   · intro c; rw [hcbs]; exact wf1.cbsNodup c
   · exact List.nodup_nil
   · intro c; rw [hchan, hclean c]; simp
+
+
+/-! ### the whole propagation, for one mux -/
+
+theorem Bay.dirtyPhase_sync {strong : Bool} {b b1 : Bay} {mi : Nat} {m : Mux} (wf : b.WF)
+    (hm : b.muxes[mi]? = some m) (hfr : b.Frame mi m) (hweak : b.Weak mi m)
+    (hpre : (b.chan m.sel).dirty = true ∨ b.SyncUpTo strong mi m (fun _ c => (b.chan c).dirty = true))
+    {fuel : Nat} (h : b.dirtyPhase fuel 0 = .ok b1) :
+    b1.WF ∧ b1.muxes[mi]? = some m ∧ b1.MuxSync strong mi m := by
+  have h0 : Bay.InvC strong mi m b 0 := by
+    refine ⟨hm, hfr, hweak, ?_⟩
+    intro hs
+    rw [List.drop_zero] at hs ⊢
+    rcases hpre with hd | hsync
+    · exact absurd ((wf.dirtyIff _).mpr hd) hs
+    · exact hsync.mono (fun i c _ hp => (wf.dirtyIff c).mpr hp)
+  obtain ⟨wf1, hm1, _, hweak1, hsync1⟩ := Bay.dirtyPhase_rule (Bay.InvC strong mi m)
+    (fun b2 k c b3 wf2 hp hc hrun => Bay.InvC.chan wf2 hp hc hrun) fuel b 0 b1 wf h0 (Nat.zero_le _) h
+  refine ⟨wf1, hm1, hweak1, ?_⟩
+  rw [List.drop_length] at hsync1
+  exact (hsync1 (by simp)).mono (fun i c _ hp => by simp at hp)
+
+/-- Channels that are not the output of any mux keep their contents during the dirty phase. -/
+theorem Bay.dirtyPhase_raw {b b1 : Bay} (wf : b.WF) {fuel : Nat} (h : b.dirtyPhase fuel 0 = .ok b1) :
+    b1.muxes = b.muxes ∧
+    ∀ c, (∀ (mj : Nat) (m' : Mux), b.muxes[mj]? = some m' → m'.out ≠ c) → b1.chan c = b.chan c := by
+  let P : Bay → Nat → Prop := fun b2 _ => b2.muxes = b.muxes ∧
+    ∀ c, (∀ (mj : Nat) (m' : Mux), b.muxes[mj]? = some m' → m'.out ≠ c) → b2.chan c = b.chan c
+  have hstep : ∀ (b2 : Bay) (k c : Nat) (b3 : Bay), b2.WF → P b2 k → b2.dirty[k]? = some c →
+      b2.propChan (b2.chanFuel c) c 0 = .ok b3 → P b3 (k + 1) := by
+    intro b2 k c b3 wf2 hp _ hrun
+    exact (Bay.propChan_rule c (fun b4 _ => P b4 0)
+      (by
+        intro b4 j cb b5 wf4 hp4 _ hrun4 _
+        obtain ⟨m', hm', hmux, hch, _⟩ := Bay.runCb_frame wf4 hrun4
+        refine ⟨hmux.trans hp4.1, fun c' hc' => ?_⟩
+        rw [hch c' (by
+          intro e; rw [hp4.1] at hm'; exact hc' _ m' hm' e.symm), hp4.2 c' hc'])
+      _ b2 0 b3 wf2 hp (Nat.zero_le _) hrun).2.2
+  exact (Bay.dirtyPhase_rule P hstep fuel b 0 b1 wf ⟨rfl, fun _ _ => rfl⟩ (Nat.zero_le _) h).2
+
+theorem Bay.propagate_sync {strong : Bool} {b bF : Bay} {em : List (Nat × Value)} {mi : Nat} {m : Mux}
+    (wf : b.WF) (hm : b.muxes[mi]? = some m) (hfr : b.Frame mi m) (hweak : b.Weak mi m)
+    (hpre : (b.chan m.sel).dirty = true ∨ b.SyncUpTo strong mi m (fun _ c => (b.chan c).dirty = true))
+    (h : b.propagate = .ok (bF, em)) :
+    bF.WF ∧ bF.Clean ∧ bF.muxes = b.muxes ∧ bF.MuxSync strong mi m := by
+  obtain ⟨b1, b2, h1, h2, rfl, _⟩ := Bay.propagate_ok h
+  obtain ⟨wf1, hm1, hweak1, hsync1⟩ := Bay.dirtyPhase_sync wf hm hfr hweak hpre h1
+  obtain ⟨wfF, hclean, hcur, hcbs, hselOf, hmux⟩ := Bay.flush_result wf1 h2
+  have v : b1.SameView ({ b2 with dirty := [] } : Bay) mi m :=
+    ⟨hcur _, hcur _, fun _ c _ => hcur c, fun i c => by rw [hcbs], hselOf mi⟩
+  exact ⟨wfF, hclean, hmux.trans (Bay.dirtyPhase_raw wf h1).1, v.weak hweak1, v.sync hsync1 (fun _ _ _ hp => hp)⟩
+
+theorem Bay.propagate_raw {b bF : Bay} {em : List (Nat × Value)} (wf : b.WF)
+    (h : b.propagate = .ok (bF, em)) (c : Nat)
+    (hc : ∀ (mj : Nat) (m' : Mux), b.muxes[mj]? = some m' → m'.out ≠ c) :
+    (bF.chan c).cur = (b.chan c).cur := by
+  obtain ⟨b1, b2, h1, h2, rfl, _⟩ := Bay.propagate_ok h
+  have wf1 : b1.WF := (Bay.dirtyPhase_rule (fun _ _ => True) (by intros; trivial) _ b 0 b1 wf trivial
+    (Nat.zero_le _) h1).1
+  obtain ⟨_, _, hcur, _⟩ := Bay.flush_result wf1 h2
+  rw [hcur, (Bay.dirtyPhase_raw wf h1).2 c hc]
+
+
+/-! ### the writes of an event -/
+
+theorem Bay.Writes.inv {ok : Nat → Prop} {b b1 : Bay} (wf : b.WF) (h : Bay.Writes ok b b1) :
+    b1.WF ∧ b1.cbs = b.cbs ∧ b1.selected = b.selected ∧ b1.muxes = b.muxes ∧
+    (∀ c, ¬ ok c → b1.chan c = b.chan c) ∧
+    (∀ c, (b1.chan c).dirty = false → b1.chan c = b.chan c) := by
+  induction h with
+  | nil => exact ⟨wf, rfl, rfl, rfl, fun _ _ => rfl, fun _ _ => rfl⟩
+  | @snoc b1 b2 c f _ hok hf hw ih =>
+    obtain ⟨wf1, h1, h2, h3, h4, h5⟩ := ih
+    refine ⟨wf1.write hf hw, (Bay.write_cbs hw).trans h1, (Bay.write_selected hw).trans h2,
+      (Bay.write_muxes hw).trans h3, ?_, ?_⟩
+    · intro c' hc'
+      have : c' ≠ c := by rintro rfl; exact hc' hok
+      rw [Bay.write_chan_ne hw this]; exact h4 c' hc'
+    · intro c' hd
+      by_cases hcc : c' = c
+      · subst hcc
+        have hop := hf _ _ (Bay.write_chan_eq hw).1
+        rcases hop.1 with he | ht
+        · rw [he] at hd ⊢; exact h5 c' hd
+        · rw [ht] at hd; cases hd
+      · rw [Bay.write_chan_ne hw hcc] at hd ⊢; exact h5 c' hd
+
+/-- After the writes of an event (none of them to the mux output) a mux that
+    was in sync satisfies the precondition of `propagate_sync`: either its
+    select channel is dirty, or it is in sync up to a dirty selected input. -/
+theorem Bay.Writes.pre {strong : Bool} {b b1 : Bay} {mi : Nat} {m : Mux} (wf : b.WF)
+    (hsync : b.MuxSync strong mi m) (h : Bay.Writes (· ≠ m.out) b b1) :
+    b1.Weak mi m ∧
+    ((b1.chan m.sel).dirty = true ∨ b1.SyncUpTo strong mi m (fun _ c => (b1.chan c).dirty = true)) := by
+  obtain ⟨_, h1, h2, _, h4, h5⟩ := h.inv wf
+  obtain ⟨hweak, s, g1, g2, g3, g4⟩ := hsync
+  have hen : ∀ i, b1.enabled mi m i ↔ b.enabled mi m i := by
+    intro i; unfold Bay.enabled; simp only [Bay.cbsOf_congr h1]
+  have hsel : b1.selOf mi = b.selOf mi := Bay.selOf_congr h2 mi
+  refine ⟨fun i hi => by rw [hsel]; exact hweak i ((hen i).mp hi), ?_⟩
+  cases hd : (b1.chan m.sel).dirty
+  · right
+    refine ⟨s, by rw [h5 _ hd]; exact g1, fun i => (hen i).trans (g2 i), by rw [hsel]; exact g3, ?_⟩
+    have hout : b1.chan m.out = b.chan m.out := h4 _ (by simp)
+    rcases g4 with g4 | ⟨_, _, _, _, hf⟩
+    · cases s with
+      | none => left; rw [hout]; exact g4
+      | some i =>
+        simp only [Bay.specVal] at g4 ⊢
+        split
+        · rename_i c hc
+          rw [hc] at g4; simp only at g4
+          cases hdc : (b1.chan c).dirty
+          · left; rw [hout, h5 c hdc]; exact g4
+          · right; exact ⟨i, c, rfl, hc, hdc⟩
+        · rename_i hnone
+          left; rw [hout]
+          split at g4
+          · rename_i c hc; exact absurd hc (hnone c)
+          · exact g4
+    · exact hf.elim
+  · left; rfl
 
 end Ovni.Emu
